@@ -323,8 +323,10 @@ def classify(route, sec, key, typ, value, ref, obs_kind, obs):
             cands.append(dm_fintlist(cands[0]))
         if any(c is not None and c == obs for c in cands):
             return "fintlist-drops-falsy-items"
-    if typ == "number" and obs_kind == "stored" and not mt.doc_class_ok("number", obs):
-        # model: range limits are stored without any conversion (HDF5 turns lists into arrays)
+    if typ == "number" and obs_kind == "stored" and not mt.doc_class_ok("number", obs) \
+            and value is not None and not (isinstance(value, str) and value == ""):
+        # model: range limits are stored without any conversion (HDF5 turns lists into arrays);
+        # None and empty strings are refused before the conversion step, also by the defect
         if obs is value or (obs is not _MISSING and mt.values_equal(obs, value)):
             return "online-filter-range-stored-unconverted"
     if sec == "online_filter" and obs_kind == "raised" and isinstance(obs, ValueError) \
